@@ -124,7 +124,7 @@ func drawPlan(rt *rapid.T) *plan {
 	}
 	p.BatchMode = rapid.SampledFrom([]string{"no", "sendmmsg"}).Draw(rt, "batchMode")
 	if p.BatchMode == "sendmmsg" {
-		p.RelayBatch = rapid.SampledFrom([]int{0, 1, 2, 4, 8, 16}).Draw(rt, "relayBatch")
+		p.RelayBatch = rapid.SampledFrom([]int{0, 0, 1, 2, 4, 8, 16, 128, 1024}).Draw(rt, "relayBatch") // 0 = default 256
 		p.RecvBatch = rapid.SampledFrom([]int{0, 1, 2, 8}).Draw(rt, "recvBatch")
 	}
 	p.SendChanCap = rapid.SampledFrom([]int{0, 64, 64}).Draw(rt, "sendChanCap")
